@@ -135,6 +135,20 @@ func inheritNamespaces(cursor *InMemory, pos int) int {
 		}
 	}
 
+	// A default namespace declared with an empty name (xmlns="") undeclares
+	// it: the element and its descendants have no namespace node for it.
+	inScope := cursor.namespaces[:0]
+
+	for _, c := range cursor.namespaces {
+		ns := c.(*InMemory).node.(node.Namespace)
+
+		if ns.Prefix() != "" || ns.NamespaceValue() != "" {
+			inScope = append(inScope, c)
+		}
+	}
+
+	cursor.namespaces = inScope
+
 	return pos
 }
 
